@@ -21,6 +21,10 @@ pub fn gen_mesh_death(r: &mut Rng, frames: i32) -> Scn {
     s.notify_ms = r.pick(&[200u64, 500]);
     s.timeout_ms = s.notify_ms + r.pick(&[200u64, 1000, 1500]);
     s.link = Link { drop: r.pick(&[0.0, 0.0, 0.03]), dup: r.pick(&[0.0, 0.1]), base_ms: r.pick(&[0u64, 10, 30, 60]), jitter_ms: r.pick(&[0u64, 5, 20]), outages: vec![], faults: vec![] };
+    if s.link.drop > 0.0 {
+        // a single lost keep-alive must not time out a live peer
+        s.timeout_ms = s.timeout_ms.max(s.notify_ms + 1000);
+    }
     // survivors are mutually delayed by different amounts
     let n = s.peers.len();
     for a in 0..n {
@@ -63,6 +67,18 @@ pub fn run_case(c: &WCase) -> Outcome {
                 let mut v2 = vv.clone();
                 v2.clause = format!("survivor's request list broken after the drop: {}", v2.clause);
                 out.violate(v2);
+            }
+        }
+        // a LIVE peer that was timed out by somebody (a lossy link with a short timeout) is a partial
+        // partition, not "one peer drops out and the others stay connected to each other"
+        {
+            let dead_node = w.killed_at.and(w.scn.kill.as_ref().map(|k| k.node));
+            let live_handles: Vec<usize> = w.scn.peers.iter().enumerate().filter(|(i, _)| Some(*i) != dead_node).flat_map(|(_, l)| l.iter().copied()).collect();
+            if w.nodes.iter().any(|n| !n.is_spec && live_handles.iter().any(|h| n.fin.cs.get(*h).is_some_and(|c| c.0))) {
+                out.verdict = Verdict::Held;
+                out.inconclusive("a live peer was timed out by another one (partial partition): outside C10's space");
+                out.count("runs_with_a_live_peer_timed_out", 1);
+                return;
             }
         }
         if !w.viols.is_empty() {
